@@ -108,12 +108,16 @@ def _check_reference(rep, curve):
             rep.fail("reference is_on_curve raised %r" % (pth.value,), rp("is_on_curve"))
             continue
         (x, y), b, res = pth.value
-        asg, un = c13._classify(R, {"curve": y * y - x * x * x - b})
-        if "curve" not in asg:
-            rep.unknown("reference is_on_curve: predicate not recognised", detail=str(lits_summary(R)))
-            continue
-        outs.add(asg["curve"])
-        require(rep, res == (asg["curve"] == "zero"), "reference is_on_curve tests y^2 - x^3 == b", lits_summary(R), rp("is_on_curve"))
+        curve_t = y * y - x * x * x - b
+        st = None
+        if not (set(curve_t.comp) - {0}):
+            st = R.status(R._apply_subst(curve_t.comp.get(0, z3.IntVal(0))))
+        # the answer must be implied by the path: True only where the curve equation holds, False only where it fails
+        ok = (bool(res) is True and st == "zero") or (bool(res) is False and st == "nonzero")
+        if st is not None:
+            outs.add(st)
+        require(rep, ok, "reference is_on_curve(P, b) is True exactly when y^2 - x^3 == b (every finite coordinate pair, (0, 0) and zero coordinates included; this path decides it %s)" % st,
+                lits_summary(R), rp("is_on_curve"))
     require(rep, outs == {"zero", "nonzero"}, "reference is_on_curve can answer both ways", None, rp("is_on_curve"))
 
 
@@ -303,7 +307,7 @@ def twist(rep, tier):
                 pt = (FQ2(xs), FQ2(ys)) if impl == "ref" else (FQ2(xs), FQ2(ys), FQ2(zs))
                 return xs, ys, zs, m.twist(pt)
             from .c08 import cf
-            for pth, R in ring.run_paths(fn, lambda: Ring(p, policy=lambda live: "generic")):
+            for pth, R in ring.run_paths(fn, lambda: Ring(p)):      # every zero / non-zero case the code itself distinguishes
                 rep.paths += 1
                 path = lits_summary(R)
                 if pth.kind != "ret":
@@ -508,3 +512,110 @@ for _p in (7, 13):
     obligation("C07", "small_curve_all_triples_p%d" % _p, tier="thorough", timeout=3000,
                bound="every triple of points of the odd-order curve y^2 = x^3 + 2 over GF(%d): closure, commutativity, associativity incl. all special positions (P = Q, P = -Q, intermediate sums meeting), doubling, inverse; real reference add/double/neg of bn128_curve over an FQ subclass, exact 16-bit vectors, inversion by contract" % _p)(
         _mk_small("bn128", _p))
+
+
+def _check_small_optimized(rep, curve, p, b, order):
+    """optimized (projective) module against the reference (affine) module of the same curve family on a whole small curve."""
+    mo, mr = mod(OPT[curve]), mod(REF[curve])
+    fe = mod("py_ecc.fields.field_elements")
+    ofe = mod("py_ecc.fields.optimized_field_elements")
+    rp = {"kind": "c07_small_opt", "args": {"curve": curve, "p": p, "b": b}}
+    T = type("SmallFQ", (fe.FQ,), {"field_modulus": p})
+    TO = type("SmallOptFQ", (ofe.FQ,), {"field_modulus": p})
+    tag = "optimized %s add/double/multiply on y^2 = x^3 + %d over GF(%d) (order %d)" % (curve, b, p, order)
+    W = 16
+    bv = lambda v: z3.BitVecVal(v, W)
+    rem = lambda t: z3.URem(t, bv(p))
+
+    def inv_bv(a, n):
+        ctx = core.cur()
+        a = SymZ.lift(a)
+        v = SymZ.var(ctx.fresh_name("inv"), 0, n - 1)
+        am = a % n
+        ctx.add_fact(z3.If(am.t == 0, v.t == 0, rem(am.t * v.t) == 1))
+        return v
+
+    def ppt(ctx, nm):
+        x, y, z = (SymZ.var(c + nm, 0, p - 1) for c in "xyz")
+        ctx.assume(z3.Or(z.t == 0, rem(rem(y.t * y.t) * z.t) == rem(rem(x.t * x.t * x.t) + rem(b * rem(z.t * z.t * z.t)))))
+        return (x, y, z)
+
+    def opt_pt(Pt):
+        return tuple(TO(c) for c in Pt)
+
+    def aff(ctx, Pt):
+        if ctx.branch(Pt[2].t == 0):
+            return None
+        with world.patched(fe, prime_field_inv=inv_bv):
+            return (T(Pt[0]) / T(Pt[2]), T(Pt[1]) / T(Pt[2]))
+
+    def n_(c):
+        return SymZ.lift(c.n).t
+
+    def agrees(S, E):
+        """projective S represents the affine point E (None = infinity)."""
+        if E is None:
+            return n_(S[2]) == 0
+        return z3.And(n_(S[2]) != 0, n_(S[0]) == rem(n_(E[0]) * n_(S[2])), n_(S[1]) == rem(n_(E[1]) * n_(S[2])))
+
+    def same_proj(A, B):
+        za, zb = n_(A[2]), n_(B[2])
+        return z3.If(z3.Or(za == 0, zb == 0), z3.And(za == 0, zb == 0),
+                     z3.And(rem(n_(A[0]) * zb) == rem(n_(B[0]) * za), rem(n_(A[1]) * zb) == rem(n_(B[1]) * za)))
+
+    def finish(pth, what):
+        rep.paths += 1
+        if pth.kind != "ret":
+            g, mm = pth.ctx.satisfiable()
+            if g == "sat":
+                rep.fail("%s: %s raised %r" % (tag, what, pth.value), rp)
+            elif g != "unsat":
+                rep.unknown("%s: feasibility of a raising path undecided" % tag)
+            return
+        for w, gl in pth.value:
+            g, mm = pth.ctx.prove(gl, timeout_ms=120000)
+            require(rep, g, "%s: %s" % (tag, w), pth.decisions, rp)
+        g, mm = pth.ctx.prove_side()
+        if g != "unsat":
+            rep.unknown("%s: bit-vector arithmetic may wrap (%s)" % (tag, what))
+    kw = dict(backend=("bv", W), branch_timeout_ms=60000, max_decisions=300)
+
+    def run_add(ctx):
+        P, Q = ppt(ctx, "1"), ppt(ctx, "2")
+        S = mo.add(opt_pt(P), opt_pt(Q))
+        D = mo.double(opt_pt(P))
+        Ng = mo.add(opt_pt(P), mo.neg(opt_pt(P)))
+        aP, aQ = aff(ctx, P), aff(ctx, Q)
+        with world.patched(fe, prime_field_inv=inv_bv):
+            E = mr.add(aP, aQ)
+            E2 = mr.add(aP, aP)
+        return [("add(P~, Q~) represents the reference affine sum for ALL pairs and ALL projective representatives (z = 0: infinity)", agrees(S, E)),
+                ("double(P~) represents P + P", agrees(D, E2)), ("P + (-P) is infinity", n_(Ng[2]) == 0)]
+    core.explore(run_add, ctx_kwargs=kw, on_path=lambda pth: finish(pth, "add"), max_paths=3000)
+
+    def run_mul(ctx):
+        P = ppt(ctx, "1")
+        n = SymZ.var("n", 0, 2 * order + 1)
+        M0 = mo.multiply(opt_pt(P), n)
+        M1 = mo.multiply(opt_pt(P), n + 1)
+        Mr = mo.multiply(opt_pt(P), n + order)
+        Z = mo.multiply(opt_pt(P), 0)
+        return [("multiply(P, n + 1) ~ multiply(P, n) + P for EVERY n in [0, 2*order + 1] and every representative", same_proj(M1, mo.add(M0, opt_pt(P)))),
+                ("multiply(P, n + order) ~ multiply(P, n)", same_proj(Mr, M0)), ("multiply(P, 0) is infinity", n_(Z[2]) == 0)]
+    core.explore(run_mul, ctx_kwargs=kw, on_path=lambda pth: finish(pth, "multiply"), max_paths=6000)
+    rep.stub("prime_field_inv(a, p) -> fresh v with a*v == 1 (mod p) (only in the affine oracle; the optimized code is division-free)")
+
+
+for _c in ("bn128", "bls12_381"):
+    def _mk_so(curve=_c):
+        def f(rep, tier):
+            cs = [c for c in small_curves(23) if c[0] == 7]
+            p_, b, n = cs[0]
+            rep.encoded(mod(OPT[curve]).add, mod(OPT[curve]).double, mod(OPT[curve]).multiply, mod(OPT[curve]).neg, mod(REF[curve]).add)
+            _check_small_optimized(rep, curve, p_, b, n)
+        return f
+    obligation("C07", "small_curve_optimized_vs_reference_%s_p7" % _c, tier="thorough", timeout=3000,
+               bound="y^2 = x^3 + 2 over GF(7) (order 9): optimized add/double/neg on EVERY pair of projective triples (every representative, z = 0 included) against the reference affine add; "
+                     "multiply for every point and every n in [0, 19]; real optimized_%s code over an optimized-FQ subclass, exact 16-bit vectors" % _c)(_mk_so())
+obligation("C07", "small_curve_all_triples_p7_bls12_381", tier="thorough", timeout=3000,
+           bound="as small_curve_all_triples_p7 for the reference bls12_381_curve module")(_mk_small("bls12_381", 7))
